@@ -1266,7 +1266,17 @@ def interplin(vin, xin, uin):
         xm[w] = 0
 
     xmp1 = xm + 1
-    return (u - x[xm]) * (v[xmp1] - v[xm]) / (x[xmp1] - x[xm]) + v[xm]
+    dx = x[xmp1] - x[xm]
+    rise = (u - x[xm]) * (v[xmp1] - v[xm])
+
+    # a zero-width segment (repeated x values, e.g. a cumulative distribution
+    # that has saturated) has no slope: use its left value instead of 0/0
+    flat = dx == 0
+    if flat.any():
+        dx = np.where(flat, 1, dx)
+        rise = np.where(flat, 0, rise)
+
+    return rise / dx + v[xm]
 
 
 def cor2cov(cor, diagerr):
